@@ -7,5 +7,7 @@ import AriesVerif.C07.Props
 #print axioms Ldp.C07_claims_differ_rejected
 #print axioms Ldp.C07_proof_options_covered
 #print axioms Ldp.C07_no_proof
+#print axioms Ldp.C07_context_list_covered
+#print axioms Ldp.C07_detached_proof_context
 #print axioms Ldp.Strict.C07_F1_old_accepts
 #print axioms Ldp.Strict.C07_F1_now_rejects
